@@ -16,7 +16,11 @@ PROPS["C04"] = dict(
                "whose latest op is covered by the clock at those heads when isolated; and, as an invariant of EVERY sequence "
                "of deliveries and commits from the empty document (induction over steps, using the causal-queue theorems), the "
                "incrementally maintained heads (heads - deps + hash) are exactly the applied changes no applied change "
-               "depends on, the applied changes are dependency-closed. Tied to the code by evaluating the model on the changes "
+               "depends on, the applied changes are dependency-closed. Also proved: when the chosen actor's later changes reach higher op "
+               "counters (none is empty) the previous change of the actor an isolated transaction writes as is an ancestor of the "
+               "isolation heads (C04_isolated_prev_is_ancestor), and refuted otherwise (C04_isolated_commit_breaks_chain_refuted: "
+               "change, empty change, transaction isolated at the first change - reproduced on the implementation, finding "
+               "reported under C10). Tied to the code by evaluating the model on the changes "
                "the replica had applied when each transaction started and comparing (actor, seq, start_op, sorted deps) of "
                "EVERY created change, and get_heads after EVERY step (with heads_of and with the incremental fold); the same "
                "statements are also checked directly on the implementation in ten times as many histories.",
